@@ -708,16 +708,16 @@ def build_units(ctx: Ctx) -> Tuple[List[Any], Dict[str, Any]]:
             k = n_labels(inputs)
             outs = all_outputs(k)
             if len(outs) > 16:
-                outs = [outs[0], outs[-1]] + rng.sample(outs[1:-1], 10)
+                outs = [outs[0], outs[-1]] + rng.sample(outs[1:-1], 22)
             for oi, output in enumerate(outs):
                 nb += 1
                 cs = combos(False)
                 sr, dt, rg = cs[(nb + oi) % len(cs)]
-                units.append(("einsum", sr, dt, rg, inputs, output, 2, uid)); uid += 1
+                units.append(("einsum", sr, dt, rg, inputs, output, 3, uid)); uid += 1
                 if nb % 3 == 0:
                     units.append(("viterbi", "Viterbi", "float64", bool(nb % 2), inputs, output, 1, uid)); uid += 1
         info["signatures_big(<=3 operands,<=4 labels, rest)"] = len(sigs_big)
-        info["(inputs,output) pairs big (12 of the 65 output lists sampled for 4-label signatures)"] = nb
+        info["(inputs,output) pairs big (24 of the 65 output lists sampled for 4-label signatures)"] = nb
     else:
         # a smoke sample of the larger signatures in the quick tier
         big = [s for s in enum_inputs(3, 4, min_ops=3)]
@@ -805,7 +805,7 @@ def run_bounded(ctx: Ctx) -> Report:
                 avail.add(canon({"pool": p["pool"], "vaxes": p["vaxes"], "storage": p["storage"]}))
     bounds = {
         "einsum": ("every signature with <= 2 operands / <= 3 labels (operand rank <= 3, repeated labels allowed) x every "
-                   "duplicate-free output list" + (", plus every signature with <= 3 operands / <= 4 labels x every output list (<= 3 labels) / 12 sampled output lists (4 labels)"
+                   "duplicate-free output list" + (", plus every signature with <= 3 operands / <= 4 labels x every output list (<= 3 labels) / 24 sampled output lists (4 labels)"
                    if ctx.thorough else ", plus 400 sampled 3-operand signatures") +
                    ", plus the empty operand list; label sizes in {1,2,3} and one zero-size assignment per unit; "
                    "operands = well-typed patterns from patterns_for_shape (dense, diagonal, SumAxis, unit, stride-0/transposed "
